@@ -140,6 +140,20 @@ impl Bloom {
     }
 }
 
+#[cfg(feature = "verif-hooks")]
+impl Bloom {
+    /// Verification hook: `(bitset, size_exp, size mask, set_locs, shift)`.
+    pub(crate) fn verif_state(&self) -> (Vec<u64>, u64, u64, u64, u64) {
+        (
+            self.bitset.clone(),
+            self.size_exp,
+            self.size,
+            self.set_locs,
+            self.shift,
+        )
+    }
+}
+
 #[cfg(test)]
 mod test {
     use super::*;
